@@ -18,6 +18,17 @@ contig names (HAP1_SCAFFOLD_2, hap2_ctg1a, h3_...; some scaffolds without a pref
 (so that there are input adjacencies), the scaffolds of the haplotypes in EVERY interleaving (by haplotype, by
 chromosome HAP1_1 HAP2_1 HAP1_2 HAP2_2, and all orders between), under the null map (every scaffold whole and
 forward: 0 cuts, 0 breaks, 0 joins by the recount), every scaffold reversed, and seeded edit scripts.
+
+Every place where the numbers are reported is judged: the statistics object and, whenever the *.info.yaml is read, its
+top-level manual_breaks / manual_joins (present when the curation touched several assemblies).  The *outside* families
+make the adjacencies that lie in no haplotype assembly: on the prefix inputs, two whole scaffolds (of one haplotype,
+of two, without prefix) joined in one Pretext scaffold whose pieces are all Contaminant / FalseDuplicate / Haplotig /
+untagged / named for another haplotype, a scaffold broken at each of its gaps into pieces so tagged, and whole input
+scaffolds of the seeded edit scripts so tagged.
+
+And the *gap-run* families: an adjacency is the pair of the two facing contig ends whatever lies between them, so
+inputs whose contigs are separated by runs of 2-4 consecutive gap rows (legal AGP / TPF), left whole, reversed, broken
+inside the run and rearranged, next to a second scaffold to join to.
 """
 
 import contextlib
@@ -46,13 +57,14 @@ def scratch_dir():
         shutil.rmtree(d, ignore_errors=True)
 
 
-def reported_haplotig_removals(run):
+def reported_info(run):
     """
-    manual_haplotig_removals of the *.info.yaml which write_info_yaml(), called as cli() calls it, writes for this run
-    (None if the key is missing).  The file is written into the scratch directory and deleted as soon as it is read.
+    the *.info.yaml which write_info_yaml(), called as cli() calls it, writes for this run, as a dict ({} if it is not
+    a mapping).  The file is written into the scratch directory and deleted as soon as it is read.
     """
     if not _SCRATCH:
-        return pg.info_yaml(run).get("manual_haplotig_removals")
+        info = pg.info_yaml(run)
+        return info if isinstance(info, dict) else {}
     import yaml
 
     from tola.assembly.scripts.pretext_to_asm import write_info_yaml
@@ -64,7 +76,7 @@ def reported_haplotig_removals(run):
     text = yf.read_text()
     yf.unlink()
     info = yaml.load(text, Loader=getattr(yaml, "CSafeLoader", yaml.SafeLoader))
-    return info.get("manual_haplotig_removals") if isinstance(info, dict) else None
+    return info if isinstance(info, dict) else {}
 
 
 def has_special_tag(case):
@@ -106,7 +118,19 @@ def check(case, col):
     # haplotig removals: the number in *.info.yaml against the scaffolds of the Haplotig assembly that is written
     hap_scaffolds = run.out.get("Haplotig", {"scaffolds": []})["scaffolds"]
     if case.get("yaml"):
-        reported = reported_haplotig_removals(run)
+        info = reported_info(run)
+        # the totals of the second report: wherever the file states the breaks / joins of the curation as a whole
+        # they are the same two numbers
+        for key, what, want, detail in (
+            ("manual_breaks", "breaks", breaks, fmt(in_adj - out_adj)),
+            ("manual_joins", "joins", joins, fmt(out_adj - in_adj)),
+        ):
+            if key in info and info[key] != want:
+                problems.append(
+                    f"info.yaml {key}: {info[key]!r}, recount of {what} over all output assemblies "
+                    f"{sorted(str(k) for k in run.out)}: {want} ({detail}); per-assembly entries: {info.get('assemblies')}"
+                )
+        reported = info.get("manual_haplotig_removals")
         if reported != len(hap_scaffolds):
             tagged_h = sum(1 for sc in case["map"]["scaffolds"] for p in sc if "Haplotig" in p[4])
             problems.append(
